@@ -219,10 +219,11 @@ def generate_dependent_dispatch(tup, handlers, next_call, slf, name, err, nerr):
                         for h, types in handlers
                     ]
                     keyed = reduce(lambda a, b: {**a, **b}, all_keys)
-                    if (
-                        len(keyed) == sum(map(len, all_keys))
-                        and len(featured) < 4
-                    ):
+                    if len(keyed) != sum(map(len, all_keys)):
+                        # Some keys are shared by several handlers: more than
+                        # one may match, so all of them must be checked.
+                        keyed = None
+                    elif len(featured) < 4:
                         exclusive = True
                         keyexpr = None
                     else:
